@@ -10,10 +10,43 @@ import (
 )
 
 var Registry = map[string]func(){
-	"IdFromList":   IdFromList,
-	"ListLen":      ListLen,
-	"ById":         ById,
-	"NativeScript": NativeScript,
+	"IdFromList":     IdFromList,
+	"ListLen":        ListLen,
+	"ById":           ById,
+	"NativeScript":   NativeScript,
+	"IdFromLongList": IdFromLongList,
+}
+
+// IdFromLongList: the same for lists longer than 130 bytes (a small first element followed by
+// three 62-byte byte strings with free contents), every head form: the id does not depend on
+// anything behind the first element.
+func IdFromLongList() {
+	form := sym.Param("form")
+	data := sym.Bytes("d", 9+3+3*62+1)
+	off := ghost.PutHead(data, 0, 4, form, 4)
+	first := off
+	off += ghost.LeafK(data, off, "item0", 4)
+	for i := 0; i < 3; i++ {
+		off += ghost.BytesLeaf(data, off, 60)
+	}
+	if form == ghost.FormIndef {
+		sym.Assume(data[off] == 0xff)
+		off++
+	}
+	// (no extent is asserted for the list as a whole: the contract's item extents are at most
+	// 64 bytes, and nothing here decodes the list as one raw item)
+	data = data[:off]
+	id, err := cbor.DecodeIdFromList(data)
+	sym.ObsBool("err", err != nil)
+	v, isUint := refFirst(data, first)
+	if !isUint {
+		sym.Reach("not-uint")
+		sym.Assert(err != nil, "a first element that is not an unsigned integer is rejected")
+		return
+	}
+	sym.Reach("uint")
+	sym.Assert(err == nil, "a list with an unsigned first element yields an id")
+	sym.Assert(uint64(id) == v, "the id is the first element of the list, whatever the head form and whatever follows")
 }
 
 // list builds a well-formed CBOR list: head in the given form announcing `items` elements,
